@@ -181,7 +181,17 @@ class Body:
         if a[0] == b[0]:
             return a[1] <= b[1]
         dom = self.dominators()
-        return b[0] in dom and a[0] in dom[b[0]]
+        if b[0] in dom and a[0] in dom[b[0]]:
+            return True
+        if getattr(self, 'inlined_ids', None) and not self.blocks[b[0]]['cleanup']:
+            # a body with an inlined helper has infeasible paths (the helper's `Err(..)` return followed by the Ok edge of the caller's
+            # `?`): a dominates b if b is not reached from the entry once a is removed, on the variant-sensitive walk
+            key = ('pd', a, b)
+            c = self.__dict__.setdefault('_pd_cache', {})
+            if key not in c:
+                c[key] = b not in self.precise_walk((0, 0), stops=frozenset([a]), include_start=True)
+            return c[key]
+        return False
 
     # ---- position-level reachability ---------------------------------------------------
     def nstmts(self, bi):
@@ -214,16 +224,61 @@ class Body:
     # ---- variant-sensitive walk (used for bodies that contain inlined code) ----------------------------------
     _VIDX = {'None': 0, 'Some': 1, 'Ok': 0, 'Err': 1, 'Continue': 0, 'Break': 1, 'Less': -1, 'Equal': 0, 'Greater': 1}
 
+    def _relevant_locals(self):
+        """locals whose tracked value (variant / bool constant) can decide a branch of precise_walk: tested by a switch, read by a
+        discriminant / Not, passed to Try::branch - or copied into such a local"""
+        r = getattr(self, '_rel_cache', None)
+        if r is not None:
+            return r
+        r = set()
+        copies = []
+        for blk in self.blocks:
+            for st in blk['stmts']:
+                if st['k'] != 'assign' or st['dst']['p']:
+                    continue
+                rv = st['rv']
+                if rv['k'] == 'discr' and not rv['pl']['p']:
+                    copies.append((st['dst']['l'], rv['pl']['l']))
+                elif rv['k'] == 'use' and 'l' in rv['o'] and not rv['o']['p']:
+                    copies.append((st['dst']['l'], rv['o']['l']))
+                elif rv['k'] == 'un' and rv.get('op') == 'Not' and 'l' in rv['o'] and not rv['o']['p']:
+                    copies.append((st['dst']['l'], rv['o']['l']))
+            t = blk['term']
+            if t['k'] == 'switch' and 'l' in t['d'] and not t['d']['p']:
+                r.add(t['d']['l'])
+            elif t['k'] == 'call':
+                fn = (t['f'].get('fn') or '') if isinstance(t['f'], dict) else ''
+                if fn.endswith('Try::branch') and t['args'] and 'l' in t['args'][0] and not t['args'][0]['p']:
+                    r.add(t['args'][0]['l'])
+                    if not t['dst']['p']:
+                        copies.append((t['args'][0]['l'], t['dst']['l']))      # keep both ends
+                        r.add(t['dst']['l'])
+                elif fn.endswith('FromResidual::from_residual') and not t['dst']['p']:
+                    r.add(t['dst']['l'])
+        grew = True
+        while grew:
+            grew = False
+            for d, src in copies:
+                if d in r and src not in r:
+                    r.add(src); grew = True
+        self._rel_cache = r
+        return r
+
     def precise_walk(self, start, stops=frozenset(), include_start=False, skip_edges=frozenset()):
         """positions reached from `start`; positions in `stops` are reached but not expanded; branches that contradict what is known
         about a local on the path are not taken: the variant of a Result / Option / ControlFlow local assigned by an aggregate
         (`_0 = Ok(..)` of an inlined callee followed by the caller's `?`), and boolean locals assigned constants."""
+        rel = self._relevant_locals()
+
         def step_stmt(st, facts):
             if st['k'] != 'assign':
                 return facts
             d = st['dst']
             l = d['l']
             rv = st['rv']
+            if l not in rel and not (rv['k'] == 'ref' and rv.get('mut')):
+                # nothing the walk models ever reads this local: no fact is kept for it (keeps the number of distinct fact sets small)
+                return frozenset((k, v) for k, v in facts if k != l) if any(k == l for k, v in facts) else facts
             if d['p']:
                 return frozenset((k, v) for k, v in facts if k != l) if any(k == l for k, v in facts) else facts
             new = None
